@@ -41,7 +41,7 @@ fn operands<C: CellType>() -> Vec<C> {
         v.push(((mask - (x as u128 & mask)) & mask) as u64);
     }
     let mut s = SEED | 1;
-    for _ in 0..150 {
+    for _ in 0..VERIF_PARAM_NRAND {
         s ^= s >> 12;
         s ^= s << 25;
         s ^= s >> 27;
